@@ -8,6 +8,8 @@ Decided clause:
         (out > in and out - in < len; in > out and in - out < len). Signing moves the message with
         memmove before anything else is written to the signed-message buffer; opening copies the
         message out with memmove only. The four secretbox functions agree (E7).
+  R13.3 in the detached secretbox functions every read of the message precedes the first write through `mac` (a message overlapping only
+        the tag area of the easy form is not moved).
   R13.2 (E8 + E9) no read-after-write hazard in the cores that are documented to work in place: in the
         AES-GCM generic encrypt / decrypt loops, their block helpers and the C stream-cipher cores,
         no read through the input pointer can follow - within one generation of the loop index - a
@@ -101,6 +103,12 @@ def run(ctx, chk):
             ok = all(e.kind == "call" and e.callee_name() == callee for e in wr)
             chk.ob("R13.1-deleg", fn, "output is written only by the overlap-normalising %s" % callee, ok,
                    loc=fn.loc(wr[0].iid) if wr else fn.loc(), path=None if ok else p, key="R13.1-deleg %s" % name)
+    # R13.3: the easy forms lay the tag right in front of the ciphertext, so a message that only overlaps the *tag* area is not moved
+    # by the normalisation of R13.1 - correct as long as the tag is the last thing written. In each detached secretbox function every
+    # read of the message precedes the first write through `mac` (C05's R5.3 engine).
+    from . import c05
+    c05.inplace_rule(prog, chk, rule="R13.3", names=("crypto_secretbox_detached", "crypto_secretbox_xchacha20poly1305_detached"),
+                     out=1, inputs=(2,), what="the message", floor=2)
     hazard_rule(ctx, prog, chk)
 
 
